@@ -62,7 +62,7 @@ fn main() {
     for i in 0..n {
         let mut srng = rng.fork();
         let w = match family {
-            "conflict" | "converge" => {
+            "conflict" | "converge" | "hist" => {
                 use serde_json::json;
                 let mut prof = Profile::all();
                 prof.texts = false;
@@ -80,6 +80,7 @@ fn main() {
                     weights: scen::W_CONFLICT,
                     twin_start: false,
                     base_calls: base,
+                    readat: if family == "hist" { 12 } else { 0 },
                     steps: 10 + srng.below(10),
                     max_reps: 3,
                     max_changes: 12,
@@ -113,6 +114,7 @@ fn main() {
                     weights: scen::W_DOC,
                     twin_start: false,
                     base_calls: base,
+                    readat: if family == "hist" { 12 } else { 0 },
                     steps: 8 + srng.below(8),
                     max_reps: 3,
                     max_changes: 12,
@@ -123,7 +125,7 @@ fn main() {
                 };
                 scen::graph_scenario(i, &mut srng, &o, family)
             }
-            "doc" | "doctext" | "docinv" => {
+            "doc" | "doctext" | "docinv" | "histdoc" => {
                 let text = family == "doctext";
                 let mut prof = Profile::all();
                 if family == "docinv" {
@@ -145,6 +147,7 @@ fn main() {
                     weights: scen::W_DOC,
                     twin_start: false,
                     base_calls: vec![],
+                    readat: if family == "histdoc" { 10 } else { 0 },
                     steps: 8 + srng.below(10),
                     max_reps: 3,
                     max_changes: 10,
@@ -161,6 +164,7 @@ fn main() {
                     weights: if dup { scen::W_DUP } else { scen::W_DEFAULT },
                     twin_start: dup,
                     base_calls: vec![],
+                    readat: 0,
                     steps: 10 + srng.below(14),
                     max_reps: 4,
                     max_changes: 14,
@@ -204,6 +208,7 @@ fn dag_main(args: &[String]) {
             weights: if dup { scen::W_DUP } else { scen::W_DEFAULT },
             twin_start: dup,
                     base_calls: vec![],
+                    readat: 0,
             steps: 8 + srng.below(10),
             max_reps: 3,
             max_changes: maxc,
